@@ -3,6 +3,7 @@ pub mod cb;
 pub mod core;
 pub mod enc;
 pub mod event;
+pub mod geom;
 pub mod maps;
 pub mod midas;
 pub mod props;
